@@ -108,6 +108,37 @@ func runC09LimiterShared(x *simkit.Exec) {
 		x.Violate("over-limit-fails-with-resource-exhausted", "shared-limiter:no-reservation-refused",
 			"%d goroutines made %d reservations of %d each (%d in total) on one Limiter with limit %d and none was refused",
 			goroutines, per, unit, total, total-1)
+		return
+	}
+	// the same at the boundary itself, many times: every goroutine makes its few reservations the moment
+	// the round starts, and together they ask for one unit more than the limit
+	rounds := 4000
+	for r := 0; r < rounds; r++ {
+		k := 1 + r%3
+		lim := store.NewLimiter(uint64(goroutines*k)*unit-1, failed)
+		var refused atomic.Int64
+		var wg sync.WaitGroup
+		start := make(chan struct{})
+		for g := 0; g < goroutines; g++ {
+			wg.Add(1)
+			go func() {
+				defer wg.Done()
+				<-start
+				for i := 0; i < k; i++ {
+					if err := lim.Reserve(unit); err != nil {
+						refused.Add(1)
+					}
+				}
+			}()
+		}
+		close(start)
+		wg.Wait()
+		if refused.Load() == 0 {
+			x.Violate("over-limit-fails-with-resource-exhausted", "shared-limiter:no-reservation-refused",
+				"round %d: %d goroutines made %d reservations of %d each at the same moment (%d in total) on one Limiter with limit %d and none was refused",
+				r, goroutines, k, unit, uint64(goroutines*k)*unit, uint64(goroutines*k)*unit-1)
+			return
+		}
 	}
 }
 
